@@ -140,6 +140,7 @@ where
 
         let hash = key.stable_hash();
         let mut pos = hash % self.capacity();
+        let start_pos = pos;
         let mut free_pos = None;
         let mut ret = None;
 
@@ -166,7 +167,17 @@ where
                 MapValueState::Valid => {}
             }
 
-            pos = self.next_pos(pos)
+            pos = self.next_pos(pos);
+
+            if pos == start_pos {
+                // No empty slot is left (only valid and deleted ones) so the
+                // probing would never end. The key is not present; purge the
+                // deleted entries and take the first free slot for the key.
+                let capacity = self.capacity();
+                self.rehash_values(storage, capacity, capacity)?;
+                free_pos = Some(self.free_index(storage, key)?);
+                break;
+            }
         }
 
         if let Some(pos) = free_pos {
